@@ -8,8 +8,6 @@
                                refuses never reaches the rules of this property)
      events                    every event the application got for this stream,
                                in order: [t |-> "H" | "P" | "D", hs, n, end]
-     bp                        a PUSH_PROMISE block had to wait for the peer's QPACK
-                               encoder stream (model: clauses abstain)
      close                     error code of QuicConnection.close, 0 = not closed
      raised                    exception that escaped handle_event, "" = none
 
@@ -37,8 +35,8 @@ Guard(e) ==
   /\ e.ok
   /\ Len(e.frames) > 0
   /\ LegalFrom(e.role, InitStream, e.frames, 1)
-  \* the end of a stream is not signalled through a PUSH_PROMISE frame
-  /\ (e.fin # "none" => e.frames[Len(e.frames)].t # "P")
+  \* a push stream carries no PUSH_PROMISE
+  /\ (e.chan = "push" => \A i \in DOMAIN e.frames : e.frames[i].t # "P")
 
 \* --- the statement ---
 \* index of the first frame that breaks a rule (Len+1: the end of the stream
@@ -131,7 +129,7 @@ Clauses(e) ==
        EndSeen(e) => ~CertainMismatch(Declared(FirstSeen(e)), LooseDeclared(FirstSeen(e)), Delivered(e))>>,
      \* not part of the statement
      <<"model:raised", e.raised = "">>,
-     <<"model:outcome", e.bp \/ ModelOutcome(e)>> >>
+     <<"model:outcome", ModelOutcome(e)>> >>
 
 TInit == l = 1
 TNext == Judge(Clauses)
